@@ -27,6 +27,11 @@ fn f64_key(n: &Number) -> u64 {
 
 /// class of the first difference met when walking two documents in the order `compare` does
 fn first_diff(a: &Value, b: &Value) -> Option<&'static str> {
+    first_diff_at(a, b, 0)
+}
+
+/// `depth` = the depth marker byte the key uses for the elements of the container we are in
+fn first_diff_at(a: &Value, b: &Value, depth: usize) -> Option<&'static str> {
     if rank(a) != rank(b) {
         return Some("kind");
     }
@@ -40,17 +45,17 @@ fn first_diff(a: &Value, b: &Value) -> Option<&'static str> {
                 None
             }
         }
-        (Value::String(x), Value::String(y)) => str_diff(x.as_bytes(), y.as_bytes()),
+        (Value::String(x), Value::String(y)) => str_diff(x.as_bytes(), y.as_bytes(), depth),
         (Value::Array(x), Value::Array(y)) => {
             for (p, q) in x.iter().zip(y.iter()) {
-                if let Some(c) = first_diff(p, q) { return Some(c); }
+                if let Some(c) = first_diff_at(p, q, (depth + 1).min(255)) { return Some(c); }
             }
             if x.len() != y.len() { Some("length") } else { None }
         }
         (Value::Object(x), Value::Object(y)) => {
             for ((kp, p), (kq, q)) in x.iter().zip(y.iter()) {
-                if let Some(c) = str_diff(kp.as_bytes(), kq.as_bytes()) { return Some(c); }
-                if let Some(c) = first_diff(p, q) { return Some(c); }
+                if let Some(c) = str_diff(kp.as_bytes(), kq.as_bytes(), (depth + 1).min(255)) { return Some(c); }
+                if let Some(c) = first_diff_at(p, q, (depth + 1).min(255)) { return Some(c); }
             }
             if x.len() != y.len() { Some("length") } else { None }
         }
@@ -58,12 +63,15 @@ fn first_diff(a: &Value, b: &Value) -> Option<&'static str> {
     }
 }
 
-fn str_diff(x: &[u8], y: &[u8]) -> Option<&'static str> {
+/// finding class D14a: one string is a proper prefix of the other and the longer one continues
+/// with a byte that does not exceed the marker bytes that can follow the shorter one in the key
+/// (a depth marker, at most the current depth; always below 0x20 for nesting < 32)
+fn str_diff(x: &[u8], y: &[u8], depth: usize) -> Option<&'static str> {
     if x == y {
         return None;
     }
     let (s, l) = if x.len() <= y.len() { (x, y) } else { (y, x) };
-    if l.starts_with(s) && l[s.len()] < 0x20 {
+    if l.starts_with(s) && (l[s.len()] as usize) <= depth.max(0x1f) {
         Some("string-prefix-control")
     } else {
         Some("string")
